@@ -321,6 +321,9 @@ struct IPrefixSys {
 	c0s: Vec<Candle>,
 	alphabet: Vec<Candle>,
 	tag: String,
+	/// B is NOT fed its construction candle before the continuation (A is fed it once): "created from v"
+	/// must already be the state "v has been seen forever"
+	unfed: bool,
 }
 impl System for IPrefixSys {
 	type State = IPSt;
@@ -335,16 +338,19 @@ impl System for IPrefixSys {
 				continue;
 			}
 			let n = cfg_span(c.as_ref());
-			let mut ks: Vec<usize> = vec![1, 2, 3, n.saturating_sub(1), n, n + 1];
-			ks.retain(|k| *k >= 1);
+			let mut ks: Vec<usize> = if self.unfed { vec![0] } else { vec![1, 2, 3, n.saturating_sub(1), n, n + 1] };
+			ks.retain(|k| *k >= 1 || self.unfed);
 			ks.sort_unstable();
 			ks.dedup();
 			for c0 in &self.c0s {
 				for &k in &ks {
 					let (Ok(Ok(mut a)), Ok(Ok(mut b))) = (catch(|| c.init(c0)), catch(|| c.init(c0))) else { continue };
 					// both streams begin with their first element (the construction candle); A has k extra copies of it
+					let unfed = self.unfed;
 					if catch(|| {
-						b.next(c0);
+						if !unfed {
+							b.next(c0);
+						}
 						for _ in 0..=k {
 							a.next(c0);
 						}
@@ -375,6 +381,23 @@ impl System for IPrefixSys {
 			_ => return Step::Prune,
 		};
 		let r = radius(s.n, n.m.max(1.0));
+		if self.unfed {
+			// "created from v" = "v has been seen forever": the instance that was never fed its construction
+			// candle must return the same VALUES as the one that was fed it once. (Signals are not compared
+			// here: detectors start from neutral seeds, so the first crossing out of the prehistory differs
+			// by convention - DESIGN 12.3 #12; non-finite values are C12's business.)
+			for (i, (x, y)) in oa.values().iter().zip(ob.values()).enumerate() {
+				// a bar without volume can make volume-weighted quotients 0/0 (residue over residue): C12's business
+				if !x.is_finite() || !y.is_finite() || c.volume == 0.0 {
+					continue;
+				}
+				let ok = x == y || ((*x as f64) - (*y as f64)).abs() <= r * (1.0 + (*x as f64).abs().max((*y as f64).abs()));
+				if !ok {
+					return Step::Violation(Failure::new(format!("{name}/construction-state/value-differs-when-construction-candle-is-not-fed"), format!("value #{i}: fed once {x:?} vs not fed {y:?} (radius {r:.3e})")));
+				}
+			}
+			return Step::Next(n);
+		}
 		// ParabolicSAR: the trend value of the fresh instance is in its documented first-candle transition
 		if let Err(e) = res_close(&oa, &ob, r, None) {
 			let bit_equal = oa.values().iter().zip(ob.values()).all(|(x, y)| x.to_bits() == y.to_bits());
@@ -448,7 +471,8 @@ fn main() {
 	let mut c0s = ks.clone();
 	c0s.push(alpha::candle(123.456, 130.1, 119.9, 125.7, 33.3));
 	h.go(&IConstSys { cfgs: indicator_configs(true), c0s: c0s.clone(), tag: "default+small+ma-kinds".into() }, &Limits::closure().wall_secs(600), true);
-	h.go(&IPrefixSys { cfgs: indicator_configs(thorough), c0s: if thorough { c0s.clone() } else { vec![ks[1], ks[5]] }, alphabet: if thorough { ks.clone() } else { ks[..4].to_vec() }, tag: "default+small".into() }, &Limits::depth(if thorough { 5 } else { 3 }).wall_secs(900), true);
+	h.go(&IPrefixSys { cfgs: indicator_configs(thorough), c0s: if thorough { c0s.clone() } else { vec![ks[1], ks[5]] }, alphabet: if thorough { ks.clone() } else { ks[..4].to_vec() }, tag: "default+small".into(), unfed: false }, &Limits::depth(if thorough { 5 } else { 3 }).wall_secs(900), true);
+	h.go(&IPrefixSys { cfgs: indicator_configs(thorough), c0s: if thorough { c0s.clone() } else { vec![ks[1], ks[5]] }, alphabet: if thorough { ks.clone() } else { ks[..4].to_vec() }, tag: "default+small/construction-candle-not-fed".into(), unfed: true }, &Limits::depth(if thorough { 5 } else { 4 }).wall_secs(900), true);
 	h.run.note("constancy_radius", serde_json::json!("16*eps*(n+8)*M, no factor t (free of drift)"));
 	h.finish();
 }
